@@ -16,7 +16,7 @@ import (
 func init() {
 	register(Property{ID: "C28", Level: "other", Run: runC28,
 		Technique: "static analysis: crash-site rules (E6) over the call closure of the playback list/get and API recordings handlers inside packages playback, recordstore and api (static calls, closures, goroutines, module-interface dispatch): explicit panics, Must* with non-constant arguments, single-value type assertions, integer divisors without a non-zero guard (one call level), dereference of captured pointer variables before assignment, make lengths that are unsigned subtractions of file-derived sizes without a lower-bound test, slice bounds / indexes computed from file content without a dominating range test (data flow + go/ssa path conditions), first/last position of a list produced elsewhere without a non-emptiness derivation (interprocedural, producer contracts)",
-		Text:      "Decides, for every function reachable from playback.(*Server).onList/onGet and api.(*API).onRecordingsList/onRecordingsGet/onRecordingDeleteSegment inside packages playback, recordstore and api: P1 no explicit panic; P2 every Must* call has constant arguments or is a tabled, sanitised site; P3 every single-value type assertion is a tabled site whose dynamic type is fixed; P5 every integer / and % has a divisor that is a non-zero constant, is dominated by a non-zero test, is a tabled non-zero field, or is a parameter whose every call-site argument is one of these; P6 every dereference of a captured pointer variable is dominated, inside the closure, by an assignment or a nil test (or the variable is assigned before the closure is created); P7 every make whose length is an unsigned subtraction of a non-constant is dominated by a lower-bound test on the minuend; P9 every slice bound / index that is computed from file content (bytes of a buffer, binary.UintNN, numeric go-mp4/mediacommon box fields, and arithmetic on them) lies within the operand's make length by construction or is dominated by a comparison on the bound, one of its file-derived terms, the operand's len/cap or a file-derived term of its allocation length; P10 every first/last-position access (x[0], x[len(x)-1], x[1:], x[len(x)-1:]) to a list that comes from another module function or from a parameter is non-empty-derivable: dominated by a length test, or the producer returns - on every return that can carry a nil error, its error being tested by the consumer - a list that is make([]T, len(non-empty input)), an append of an element, a list it tested itself, or the result of a tabled producer contract (FindSegments: no error => at least one segment; concatenateSegments: non-empty input => non-empty output; both re-checked structurally), so a producer that drops entries (unparseable segments) cannot hand an empty list with a nil error to onList / seekAndMux. Absence of a report is NOT a proof of crash freedom: index arithmetic on values that do not come from the file, the adequacy of the constants in a range check, 32-bit wrap-around, allocation sizes, third-party parsers (go-mp4, mediacommon) and the functions outside the three packages (auth, conf, gin) are outside the rule set.",
+		Text:      "Decides, for every function reachable from playback.(*Server).onList/onGet and api.(*API).onRecordingsList/onRecordingsGet/onRecordingDeleteSegment inside packages playback, recordstore and api: P1 no explicit panic; P2 every Must* call has constant arguments or is a tabled, sanitised site; P3 every single-value type assertion is a tabled site whose dynamic type is fixed; P5 every integer / and % has a divisor that is a non-zero constant, is dominated by a non-zero test, is a tabled non-zero field, or is a parameter whose every call-site argument is one of these; P6 every dereference of a captured pointer variable is dominated, inside the closure, by an assignment or a nil test (or the variable is assigned before the closure is created); P7 every make whose length is an unsigned subtraction of a non-constant is dominated by a lower-bound test on the minuend; P9 every slice bound / index that is computed from file content (bytes of a buffer, binary.UintNN, numeric go-mp4/mediacommon box fields, and arithmetic on them) lies within the operand's make length by construction or is dominated by a comparison on the bound, one of its file-derived terms, the operand's len/cap or a file-derived term of its allocation length; P10 every first/last-position access (x[0], x[len(x)-1], x[1:], x[len(x)-1:]) to a list that comes from another module function or from a parameter is non-empty-derivable: dominated by a length test, or the producer returns - on every return that can carry a nil error, its error being tested by the consumer - a list that is make([]T, len(non-empty input)), an append of an element, a list it tested itself, or the result of a tabled producer contract (FindSegments: no error => at least one segment; concatenateSegments: non-empty input => non-empty output; both re-checked structurally), so a producer that drops entries (unparseable segments) cannot hand an empty list with a nil error to onList / seekAndMux. Absence of a report is NOT a proof of crash freedom: index arithmetic on values that do not come from the file, the adequacy of the constants in a range check, 32-bit wrap-around, allocation sizes, third-party parsers (go-mp4, mediacommon) and the functions outside the three packages (auth, conf, gin) are outside the rule set. P9 is directional for operands of constant capacity (a fixed-size array or a slice of one): every path to the expression passes a comparison that limits the file-derived bound from above (a lower-bound test alone does not count); such sites count towards the P7 instance floor.",
 		Note:      "trusted: go/ssa; go-mp4 ReadPayload returns the struct registered for the box type named in the enclosing case; mediacommon fmp4.Init.Unmarshal rejects mdhd.Timescale == 0 (init.go:146), so fmp4.InitTrack.TimeScale is non-zero"})
 	addMutants(
 		Mutant{"C28", "divisor-from-file", "internal/playback/segment_fmp4.go",
